@@ -12,8 +12,8 @@ Inductive vfield :=
 | VCidr (is_v4 : bool) (masksize : Z).    (* parsed: family of the ip, prefix length *)
 
 (* a matchExpressions requirement: operator (None = not one of the six), number of values,
-   ValidateLabelName(key) = no errors *)
-Record vreq := mkVreq { vr_op : option selop; vr_nvals : nat; vr_keyok : bool }.
+   number of errors ValidateLabelName(key) reports (IsQualifiedName can report several for one key) *)
+Record vreq := mkVreq { vr_op : option selop; vr_nvals : nat; vr_keyerrs : nat }.
 (* a matchFields requirement: key is metadata.name?, number of values, number of values that are
    not valid node names *)
 Record vfreq := mkVfreq { vf_op : option selop; vf_nvals : nat; vf_keyname : bool; vf_badvals : nat }.
@@ -30,7 +30,7 @@ Definition vreq_errors (r : vreq) : nat :=
    | Some OpExists | Some OpDoesNotExist => b2n (negb (Nat.eqb (vr_nvals r) 0))
    | Some OpGt | Some OpLt => b2n (negb (Nat.eqb (vr_nvals r) 1))
    | None => 1
-   end + b2n (negb (vr_keyok r)))%nat.
+   end + vr_keyerrs r)%nat.
 
 (* validateNodeFieldSelectorRequirement *)
 Definition vfreq_errors (r : vfreq) : nat :=
@@ -67,7 +67,7 @@ Definition validate_spec (s : vspec) : nat :=
 
 (* ---- the documented acceptance condition ---- *)
 Definition vreq_ok (r : vreq) : bool :=
-  vr_keyok r &&
+  Nat.eqb (vr_keyerrs r) 0 &&
   match vr_op r with
   | Some OpIn | Some OpNotIn => negb (Nat.eqb (vr_nvals r) 0)
   | Some OpExists | Some OpDoesNotExist => Nat.eqb (vr_nvals r) 0
